@@ -76,9 +76,9 @@ def add_fn(p, module, name, params=(), data_path=None, const=1, path_style="lit"
     return fid
 
 
-def add_cls(p, module, name, method="meth", const=1, var=None, calls=None):
+def add_cls(p, module, name, method="meth", const=1, var=None, calls=None, attr=None):
     cid = "c_" + name
-    p["classes"][cid] = {"module": module, "name": name, "method": method, "const": const, "var": var, "calls": calls, "comment": "c0"}
+    p["classes"][cid] = {"module": module, "name": name, "method": method, "const": const, "var": var, "calls": calls, "comment": "c0", "attr": attr}
     p["order"][module].append(("cls", cid))
     return cid
 
@@ -133,6 +133,11 @@ def s_lambda_call(const):
 
 def s_nested_def(const, vid=None):
     return {"k": "nested_def", "const": const, "var": vid}
+
+
+def s_clsattr(cid):
+    """Reads a class-level constant through the class name (no instance, no call): x = K.LEVEL"""
+    return {"k": "clsattr", "cls": cid}
 
 
 def s_lazy_call():
@@ -389,6 +394,8 @@ def _render_fn_lines(p, fid, ctx, prelude):
         elif k == "method":
             c = p["classes"][s["cls"]]
             lines.append("    x%d = %s(%s).%s()" % (i, ctx.cls_expr(s["cls"]), s["arg"], c["method"]))
+        elif k == "clsattr":
+            lines.append("    x%d = %s.LEVEL" % (i, ctx.cls_expr(s["cls"])))
         elif k == "lazy_call":
             zn = p["lazy"]["name"]
             if "import %s" % zn not in ctx.local_imports:
@@ -412,7 +419,7 @@ def _render_fn_lines(p, fid, ctx, prelude):
 
 def render_cls(p, cid, ctx):
     c = p["classes"][cid]
-    lines = ["class %s(object):" % c["name"], "    # %s" % c.get("comment", "c0"), "    def __init__(self, a):", "        self.a = a", "", "    def %s(self):" % c["method"],
+    lines = ["class %s(object):" % c["name"], "    # %s" % c.get("comment", "c0")] + (["    LEVEL = %d" % c["attr"], ""] if c.get("attr") is not None else []) + ["    def __init__(self, a):", "        self.a = a", "", "    def %s(self):" % c["method"],
              "        vlog.hit(%r)" % (c["name"] + "." + c["method"])]
     items = ["%r" % (c["name"] + "." + c["method"]), "%d" % c["const"], "self.a"]
     if c.get("var"):
@@ -496,7 +503,8 @@ def refs_of(p, fid):
                 out.append(a["fn"])
         if s["k"] in ("call", "keep", "ref"):
             out.append(s["fn"])
-        if s["k"] == "method":
+        if s["k"] in ("method", "clsattr"):
+            # a class is one unit: a function that refers to it depends on everything its body refers to
             c = p["classes"][s["cls"]]
             if c.get("calls"):
                 out.append(c["calls"])
@@ -549,7 +557,7 @@ def _own_items(p, fid, memo, stack=(), externals=None):
             if s["k"] == "nested_def" and s.get("var"):
                 v = p["vars"][s["var"]]
                 items.append(("V", v["name"], v["value"]))
-            if s["k"] == "method":
+            if s["k"] in ("method", "clsattr"):
                 c = p["classes"][s["cls"]]
                 items.append(("C", c["name"], render_cls_nomod(p, s["cls"])))
                 if c.get("var"):
@@ -652,6 +660,12 @@ def e_set_lazy(p, what):
     else:
         q["lazy"]["var"] = str(int(q["lazy"]["var"]) + 1)
     return q, {"kind": "set_lazy_" + what, "site": ["Z", q["lazy"]["name"]]}
+
+
+def e_set_cls_attr(p, cid, delta=1000):
+    q = clone(p)
+    q["classes"][cid]["attr"] += delta
+    return q, {"kind": "set_cls_attr", "cls": q["classes"][cid]["name"], "site": ["T", q["classes"][cid]["name"]]}
 
 
 def e_set_const(p, fid, delta=1000):
